@@ -42,6 +42,10 @@ func (e c07Event) String() string {
 		return fmt.Sprintf("register(c%d,e%d)", e.K, e.E+1)
 	case "unreg", "fetch":
 		return fmt.Sprintf("%s(c%d)", e.Op, e.K)
+	case "wsreg":
+		return fmt.Sprintf("ws-register(w%d,e%d)", e.K, e.E+1)
+	case "wsclose":
+		return fmt.Sprintf("ws-close(w%d)", e.K)
 	case "deliver":
 		return fmt.Sprintf("deliver(->%s)", []string{"e1", "e2", "nobody"}[e.E])
 	}
@@ -480,6 +484,12 @@ func runC07(r *ev.Run, thorough bool) int {
 	})
 	r.Add("histories", int64(len(tasks)))
 	r.Add("distinct_observation_sequences", int64(len(outs)))
+	// WebSocket clients (sequential histories over real loopback connections)
+	wsDepth := 3
+	if thorough {
+		wsDepth = 5
+	}
+	wst := c07wsExplore(r, wsDepth)
 	// E3: deliveries racing with fetch / unregister / register on one mailbox
 	execs := 0
 	for _, sc := range []c07SchedArg{{Threads: []string{"deliver1", "deliver2", "fetch"}}, {Threads: []string{"deliver1", "fetch", "fetch"}}, {Threads: []string{"deliver1", "unregister", "deliver2"}}} {
@@ -504,13 +514,13 @@ func runC07(r *ev.Run, thorough bool) int {
 		r.Sample(map[string]interface{}{"scenario": "REST mailbox under concurrency", "threads": sc.Threads, "preemption_bound": bound, "executions": sum.Execs, "outcomes": sum.Outcomes})
 	}
 	return r.Finish(map[string]interface{}{
-		"states":                        len(seen),
-		"transitions":                   transitions + execs,
-		"traces_validated_against_impl": validated + execs,
-		"evaluations":                   len(tasks) + execs,
-		"distinct_nontrivial":           len(outs),
-		"rule":                          fmt.Sprintf("E2: BFS to depth %d over {register REST client k for e1/e2, unregister, fetch, bundle arrives for e1/e2/an unregistered endpoint, mock agent for e1 registers/unregisters, ping} with a reference model (client -> endpoint, mailbox lists); every history replayed on a real Core + RestAgent (HTTP handlers through the router) + PingAgent + mock agent, in both iteration orders of the client table; E3: all schedules up to a preemption bound of deliveries racing with fetch/unregister on one mailbox (schedule points at sync.Map operations)", depth),
-	}, []string{"WebSocket agent: sequential smoke only (gorilla/websocket internals are not under the scheduler) - not claimed", "quiescence of agent delivery by marker messages through the multiplexer"})
+		"states":                        len(seen) + wst.States,
+		"transitions":                   transitions + execs + wst.Transitions,
+		"traces_validated_against_impl": validated + execs + wst.Validated,
+		"evaluations":                   len(tasks) + execs + wst.Transitions,
+		"distinct_nontrivial":           len(outs) + wst.Outcomes,
+		"rule":                          fmt.Sprintf("E2: BFS to depth %d over {register REST client k for e1/e2, unregister, fetch, bundle arrives for e1/e2/an unregistered endpoint, mock agent for e1 registers/unregisters, ping} with a reference model (client -> endpoint, mailbox lists); every history replayed on a real Core + RestAgent (HTTP handlers through the router) + PingAgent + mock agent, in both iteration orders of the client table; E3: all schedules up to a preemption bound of deliveries racing with fetch/unregister on one mailbox (schedule points at sync.Map operations); WebSocket: BFS to depth %d over {client k connects and registers e1/e2, client k closes, bundle arrives for e1/e2/nobody} replayed on a real Core + WebSocketAgent behind an HTTP test server with real WebSocketAgentConnector clients on the loopback interface; per-client FIFO fences instead of clocks", depth, wsDepth),
+	}, []string{"WebSocket agent: sequential histories only (gorilla/websocket and the sockets are not under the scheduler); concurrent register/close/deliver on WebSocket clients is not decided", "quiescence of agent delivery by marker messages through the multiplexer"})
 }
 
 func replayC07(kind string, c json.RawMessage) (string, bool) {
@@ -523,7 +533,11 @@ func replayC07(kind string, c json.RawMessage) (string, bool) {
 	}
 	failed := false
 	desc := ""
-	runPool("c07", 1, [][]byte{mustJSON(t)}, func(i int, pr poolResult) {
+	wk := "c07"
+	if kind == "wshistory" {
+		wk = "c07ws"
+	}
+	runPool(wk, 1, [][]byte{mustJSON(t)}, func(i int, pr poolResult) {
 		if pr.Crashed {
 			failed, desc = true, "node process died: "+lastLines(pr.Stderr, 12)
 			return
